@@ -390,12 +390,19 @@ def shard(ctx):
     # 4. fresh interpreters (sample)
     for j in range(6 if ctx.tier == "quick" else 60):
         judge_fresh(ctx, ctx.rng("fresh", ctx.i * 1000 + j))
+    # 4b. process-wide factory caches
+    for j in range(1 if ctx.tier == "quick" else 5):
+        judge_factories(ctx, ctx.rng("factories", ctx.i * 100 + j))
     # 5. threads
     for rep in range(1 if ctx.tier == "quick" else 10):
         thread_phase(ctx)
 
 
 def replay(ctx, case):
+    if "factory_order" in case:
+        import random
+        judge_factories(ctx, random.Random(0))
+        return
     if "serializer_docs" in case:
         ctx.inconc("serializer histories are replayed by re-running the shard with the same seed")
         return
@@ -411,8 +418,67 @@ def replay(ctx, case):
     judge_history(ctx, ops, case["builder"], case["strict"])
 
 
+# ------------------------------------------------------------------ process-wide factory caches
+FACTORY_CONFIGS = [["builder", "etree", {}], ["builder", "etree", {"fullTree": True}], ["builder", "etree", {"fullTree": False}],
+                   ["builder", "dom", {}], ["walker", "etree", {}], ["walker", "dom", {}]]
+FACTORY_DOC = "<!DOCTYPE html><!--c--><p id=a>x<b>y</p>z"
+FACTORY_SNIPPET = r"""
+import sys, json
+sys.path.insert(0, %(verif)r)
+from vf import common
+common.import_repo()
+from vf.props import c12
+cfg = json.loads(sys.stdin.read())
+print(json.dumps(common.jsonable(c12.factory_call(cfg))))
+"""
+
+
+def factory_call(cfg):
+    """One call of the module-level factory with exactly these arguments, used on a fixed document; -> description."""
+    from html5lib import treebuilders, treewalkers, html5parser
+    what, name, kw = cfg
+    if what == "builder":
+        tb = treebuilders.getTreeBuilder(name, **kw)
+        t = html5parser.HTMLParser(tb).parse(FACTORY_DOC)
+        flat = canon.canon_dom(t) if name == "dom" else canon.canon_etree(t)
+        return [type(t).__name__, str(getattr(t, "tag", getattr(t, "nodeName", None))), flat]
+    W = treewalkers.getTreeWalker(name, **kw)
+    tb = treebuilders.getTreeBuilder("dom" if name == "dom" else "etree")
+    t = html5parser.HTMLParser(tb).parse(FACTORY_DOC)
+    return [W.__module__.split(".")[-1], [sorted((k, repr(v)) for k, v in tok.items()) for tok in W(t)]]
+
+
+def judge_factories(ctx, rng):
+    """The module factories (getTreeBuilder / getTreeWalker) cache what they build, process-wide: after any history of
+    calls with other arguments, a call must still return what it returns as the only call of a fresh interpreter."""
+    order = list(FACTORY_CONFIGS) * 2
+    rng.shuffle(order)
+    env = dict(os.environ, PYTHONHASHSEED="1", PYTHONDONTWRITEBYTECODE="1")
+    for cfg in order:
+        key = json.dumps(cfg, sort_keys=True)
+        if key not in _FACTORY_EXPECTED:
+            p = subprocess.run([sys.executable, "-c", FACTORY_SNIPPET % {"verif": common.VERIF_DIR}], input=json.dumps(cfg),
+                               capture_output=True, text=True, timeout=120, env=env)
+            if p.returncode != 0:
+                raise common.Inconclusive("fresh interpreter failed: " + p.stderr[-300:])
+            _FACTORY_EXPECTED[key] = json.loads(p.stdout)
+            ctx.count("factory_fresh_interpreter_calls")
+        got = json.loads(json.dumps(common.jsonable(factory_call(cfg))))
+        ctx.count("factory_calls_compared")
+        if got != _FACTORY_EXPECTED[key]:
+            ctx.violation("factory-result-depends-on-earlier-calls", {"factory_order": order, "at": cfg},
+                          "%s(%r, **%r) after other factory calls gives %s; alone in a fresh interpreter %s" % (
+                              cfg[0], cfg[1], cfg[2], short(repr(got), 200), short(repr(_FACTORY_EXPECTED[key]), 200)))
+            return
+
+
+_FACTORY_EXPECTED = {}
+
+
 def finalize(m, v):
     c = m["counters"]
+    if c.get("factory_calls_compared", 0) < 12:
+        m["inconclusive"].append("module factory clause compared fewer than 12 calls")
     if c.get("read_faults_injected", 0) < 500:
         m["inconclusive"].append("fewer than 500 read faults injected")
     if c.get("aborts:ParseError", 0) < 500:
